@@ -271,6 +271,117 @@ def codecScript (limit : Nat) (steps : List (List String)) : List String := Id.r
   out := out.push ("out=" ++ hexOf g.lbw.BW.out)
   return out.toList
 
+/-! ### the operation level: encoder.writeLiteral / writeMatch, decoder.readOp on empty dictionaries -/
+
+def mkLen : T_lengthCodec :=
+  { choice := #[1024#16, 1024#16], low := Array.replicate 16 (mkTree 3), mid := Array.replicate 16 (mkTree 3), high := mkTree 8 }
+
+/-- `newState(props)` -/
+def mkState (lc lp pb : Nat) : T_state :=
+  { rep := #[0#32, 0#32, 0#32, 0#32], isMatch := Array.replicate 192 1024#16, isRepG0Long := Array.replicate 192 1024#16,
+    isRep := Array.replicate 12 1024#16, isRepG0 := Array.replicate 12 1024#16, isRepG1 := Array.replicate 12 1024#16,
+    isRepG2 := Array.replicate 12 1024#16, litCodec := { probs := Array.replicate (0x300 * 2 ^ (lc + lp)) 1024#16 },
+    lenCodec := mkLen, repLenCodec := mkLen, distCodec := mkSide.dc, state := 0#32,
+    posBitMask := BitVec.ofNat 32 (2 ^ pb - 1),
+    Properties := { LC := BitVec.ofNat 64 lc, LP := BitVec.ofNat 64 lp, PB := BitVec.ofNat 64 pb } }
+
+def stateSum (s : T_state) : Nat := Id.run do
+  let md := 2 ^ 61 - 1
+  let add (h : Nat) (a : Array (BitVec 16)) : Nat := a.foldl (fun h x => ((h * 1000003 + x.toNat) % 2 ^ 64) % md) h
+  let lcs (h : Nat) (c : T_lengthCodec) : Nat :=
+    let h := add h c.choice
+    let h := c.low.foldl (fun h t => add h t.probTree.probs) h
+    let h := c.mid.foldl (fun h t => add h t.probTree.probs) h
+    add h c.high.probTree.probs
+  let mut h := 7
+  h := add h s.isMatch
+  h := add h s.isRep
+  h := add h s.isRepG0
+  h := add h s.isRepG1
+  h := add h s.isRepG2
+  h := add h s.isRepG0Long
+  h := add h s.litCodec.probs
+  h := lcs h s.lenCodec
+  h := lcs h s.repLenCodec
+  h := s.distCodec.posSlotCodecs.foldl (fun h t => add h t.probTree.probs) h
+  h := s.distCodec.posModel.foldl (fun h t => add h t.probTree.probs) h
+  h := add h s.distCodec.alignCodec.probTree.probs
+  return h
+
+def stObs (s : T_state) : String :=
+  s!"{s.state.toNat} {(s.rep.getD 0 0).toNat} {(s.rep.getD 1 0).toNat} {(s.rep.getD 2 0).toNat} {(s.rep.getD 3 0).toNat}"
+
+def emptyBuf : T_buffer := { data := Array.replicate 4097 0#8, front := 0#64, rear := 0#64 }
+
+def opScript (limit lc lp pb : Nat) (steps : List (List String)) : List String := Id.run do
+  let ed0 : T_encoderDict := default
+  let edict : T_encoderDict := { ed0 with buf := emptyBuf, head := 0#64, capacity := 4096#64 }
+  let e0 : T_encoder := default
+  let mut e : T_encoder := { e0 with dict := edict, state := mkState lc lp pb, re := encInit limit }
+  let mut d : T_decoder := default
+  let mut out : Array String := #[]
+  let nat (s : String) : Nat := s.toNat?.getD 0
+  for st in steps do
+    let fuel := e.re.cacheLen.toNat + 600
+    match st with
+    | ["wl", b] =>
+      match encoder_writeLiteral fuel e { b := BitVec.ofNat 8 (nat b) } with
+      | .ok (err, e') => e := e'; out := out.push s!"{errName err} {e.re.low.toNat} {e.re.nrange.toNat} {e.re.cacheLen.toInt} {e.re.lbw.BW.out.length} {stObs e.state}"
+      | .panic m => return (out.push ("panic:" ++ m)).toList
+      | .fuel => return (out.push "fuel").toList
+    | ["wm", dist, n] =>
+      match encoder_writeMatch fuel e { distance := BitVec.ofNat 64 (nat dist), n := BitVec.ofNat 64 (nat n) } with
+      | .ok (err, e') => e := e'; out := out.push s!"{errName err} {e.re.low.toNat} {e.re.nrange.toNat} {e.re.cacheLen.toInt} {e.re.lbw.BW.out.length} {stObs e.state}"
+      | .panic m => return (out.push ("panic:" ++ m)).toList
+      | .fuel => return (out.push "fuel").toList
+    | ["sume"] => out := out.push s!"sum {stateSum e.state}"
+    | ["sumd"] => out := out.push s!"sum {stateSum d.State}"
+    | ["close"] =>
+      match rangeEncoder_Close fuel e.re with
+      | .ok (err, r) => e := { e with re := r }; out := out.push s!"{errName err} {r.low.toNat} {r.nrange.toNat} {r.cacheLen.toInt} {r.lbw.BW.out.length}"
+      | .panic m => return (out.push ("panic:" ++ m)).toList
+      | .fuel => return (out.push "fuel").toList
+    | ["open"] =>
+      match newRangeDecoder 8 { inp := e.re.lbw.BW.out } with
+      | .ok (rd, err) =>
+        if err != Go.Err.nil then return (out.push ("open " ++ errName err)).toList
+        let dict0 : T_decoderDict := { buf := emptyBuf, head := 0#64 }
+        let d0 : T_decoder := default
+        d := { d0 with Dict := dict0, State := mkState lc lp pb, rd := rd, size := BitVec.ofInt 64 (-1) }
+        out := out.push "open nil"
+      | .panic m => return (out.push ("panic:" ++ m)).toList
+      | .fuel => return (out.push "fuel").toList
+    | ["ro"] =>
+      match decoder_readOp 600 d with
+      | .ok (op, err, d') =>
+        d := d'
+        let ops := match op with
+          | .none => "none"
+          | .lit v => s!"lit:{v.b.toNat}"
+          | .match_ v => s!"match:{v.distance.toInt}:{v.n.toInt}"
+        out := out.push s!"{errName err} {ops} {d.rd.nrange.toNat} {d.rd.code.toNat} {d.rd.br.inp.length} {stObs d.State} {b01 d.eosMarker}"
+      | .panic m => return (out.push ("panic:" ++ m)).toList
+      | .fuel => return (out.push "fuel").toList
+    | _ => out := out.push "bad-token"
+  return out.toList
+
+/-- `byteat <enc 0|1> <hex data> <front> <rear> <head> <capacity> <dist>` -/
+def byteAt (args : List String) : String :=
+  match args with
+  | [enc, h, fr, re, hd, cp, dist] =>
+    let nat (s : String) : Nat := s.toNat?.getD 0
+    let buf : T_buffer := { data := (unhexList h).toArray, front := BitVec.ofNat 64 (nat fr), rear := BitVec.ofNat 64 (nat re) }
+    let ed0 : T_encoderDict := default
+    let ed : T_encoderDict := { ed0 with buf := buf, head := BitVec.ofNat 64 (nat hd), capacity := BitVec.ofNat 64 (nat cp) }
+    let dd : T_decoderDict := { buf := buf, head := BitVec.ofNat 64 (nat hd) }
+    let dv : BitVec 64 := BitVec.ofInt 64 (dist.toInt?.getD 0)
+    let r := if enc == "1" then encoderDict_ByteAt ed dv else decoderDict_byteAt dd dv
+    match r with
+    | .ok b => toString b.toNat
+    | .panic m => "panic:" ++ m
+    | .fuel => "fuel"
+  | _ => "bad-op"
+
 def handle (args : List String) : String :=
   match args with
   | "enc" :: limit :: script => match limit.toNat? with
@@ -278,6 +389,10 @@ def handle (args : List String) : String :=
     | none => "bad-op"
   | "dec" :: h :: script => "|".intercalate (decScript (unhexList h) script)
   | "fn" :: rest => fn rest
+  | "op" :: limit :: lc :: lp :: pb :: steps => match limit.toNat?, lc.toNat?, lp.toNat?, pb.toNat? with
+    | some l, some lc, some lp, some pb => "|".intercalate (opScript l lc lp pb (steps.map (fun st => st.splitOn ",")))
+    | _, _, _, _ => "bad-op"
+  | "byteat" :: rest => byteAt rest
   | "codec" :: limit :: steps => match limit.toNat? with
     | some l => "|".intercalate (codecScript l (steps.map (fun st => st.splitOn ",")))
     | none => "bad-op"
